@@ -22,7 +22,18 @@ InContent(q) == q.ct \/ ~q.fn
 
 Repo(C, d) == C.repos[d.repo]
 
-Live(C, d) == LET r == Repo(C, d) IN ~r.tomb /\ d.name \notin ToSet(r.ftomb)
+\* Tenant visibility (C23).  A corpus may carry the requesting context in field "who":
+\* "system" sees everything, "t<k>" sees the repositories of tenant k, "none" (no tenant in the
+\* request) sees nothing; without the field enforcement is off.
+VisibleTo(who, r) == CASE who = "system" -> TRUE
+                       [] who = "none" -> FALSE
+                       [] who = "t1" -> r.tenant = 1
+                       [] who = "t2" -> r.tenant = 2
+                       [] who = "t3" -> r.tenant = 3
+                       [] OTHER -> TRUE
+Visible(C, r) == IF "who" \in DOMAIN C THEN VisibleTo(C.who, r) ELSE TRUE
+
+Live(C, d) == LET r == Repo(C, d) IN ~r.tomb /\ d.name \notin ToSet(r.ftomb) /\ Visible(C, r)
 
 \* branches (indices into the repository's branch list) selected by a branch atom
 BranchSel(q, d, r) ==
